@@ -50,7 +50,7 @@ def parseCKey (s : String) : Option CKey :=
 def parseDt (s : String) : Option Dt :=
   if s == "_" then some none else
   match s.splitOn ":" with
-  | [a, b] => do let x ← parseInt a; let y ← parseInt b; some (some ⟨x, y⟩)
+  | [a, b] => do let x ← parseInst a; let y ← parseInst b; some (some ⟨x, y⟩)
   | _ => none
 
 /-- side tables collected while parsing: generated vertices of curved holes, centroids of wedges -/
@@ -239,11 +239,69 @@ def handleIso (args : List String) : String :=
       | _ => "bad-op"
   | [] => "bad-op"
 
+/-! ## `ob.after op step step … ; A ; B` — observe, mutate in place, observe again
+
+The steps run on the ONE object built from `A`: `hash` / `set` (take its hash, put it in a set), `copy` / `pickle`
+(continue with the clone), the in-place mutators `setdt:… setdtd:… strip buffer:d setprop:k=v`, and `m<i>/<mutator>`
+(the mutator on member `i` of a multi-shape).  Then `op` is evaluated on (the object, a freshly built `B`).  On values
+only the time bounds move; a failing call leaves the object as it was. -/
+
+open GV.OS in
+def dtApply (d : Dt) : Mut Nat → Dt
+  | .setDt v => v
+  | .stripDt => none
+  | .bufferDt k =>
+      match d with
+      | none => none
+      | some t => if t.stop + k < t.start - k then some t else some ⟨t.start - k, t.stop + k⟩
+  | _ => d
+
+def shapeMapDt (f : Dt → Dt) : Shape → Shape
+  | .pl g hs dt => .pl g hs (f dt)
+  | .line vs dt => .line vs (f dt)
+  | .point c dt => .point c (f dt)
+
+def anyMapDt (f : Dt → Dt) : Any → Any
+  | .single s => .single (shapeMapDt f s)
+  | .multi m => .multi { m with dt := f m.dt }
+
+def anyMapMember (i : Nat) (f : Dt → Dt) : Any → Any
+  | .multi m => .multi { m with members := m.members.mapIdx fun j x => if j == i then shapeMapDt f x else x }
+  | a => a
+
+def applyStep (a : Any) (st : String) : Option Any :=
+  if st == "hash" || st == "set" || st == "copy" || st == "pickle" then some a
+  else if st.startsWith "m" && (st.splitOn "/").length == 2 then
+    match st.splitOn "/" with
+    | [mi, m] => do
+        let i ← parseNat (mi.drop 1).toString
+        let mu ← parseMut m
+        some (anyMapMember i (fun d => dtApply d mu) a)
+    | _ => none
+  else (parseMut st).map fun mu => anyMapDt (fun d => dtApply d mu) a
+
+def handleAfter (args : List String) : String :=
+  match splitAt ";" args with
+  | [op :: steps, ta, tb] => run1 do
+      let (x, t1) ← parseAny ta
+      let (y, t2) ← parseAny tb
+      let env := (t1.merge t2).env
+      let x' ← ofOpt (steps.foldl (fun (acc : Option Any) st => acc.bind fun a => applyStep a st) (some x))
+      match op with
+      | "eq" => .ok (showBool (Any.eq env x' y))
+      | "req" => .ok (showBool (Any.eq env y x'))
+      | "hasheq" => .ok (showBool ((x'.hashKey env).equiv (y.hashKey env)))
+      | "setlen" => .ok (toString (setLen2 env x' y))
+      | "dictget" => .ok (showBool (dictHas env x' y))
+      | "rdictget" => .ok (showBool (dictHas env y x'))
+      | _ => failBad
+  | _ => "bad-op"
+
 end GV.Drv.C15
 
 namespace GV.Drv
 
 def handleOb (op : String) (args : List String) : String :=
-  if op == "iso" then C15.handleIso args else C15.handleObVal op args
+  if op == "iso" then C15.handleIso args else if op == "after" then C15.handleAfter args else C15.handleObVal op args
 
 end GV.Drv
